@@ -1,2 +1,4 @@
 /* Placed immediately before the objects compiled from /repo at link time. */
 void verif_repo_text_begin(void) {}
+char verif_repo_data_begin = 1; /* .data */
+char verif_repo_bss_begin;      /* .bss */
